@@ -263,14 +263,25 @@ func VerifC13Event() {
 		} else {
 			by := vLen("by", 0, state.VNN-1)
 			vAssume(m.NOn[by] && m.Mem[by][j])
-			lines = append(lines, vSrc(m, by)+"KICK "+m.CName[j]+" "+m.NName[i]+" :out")
+			l := vSrc(m, by) + "KICK " + m.CName[j] + " " + m.NName[i]
+			switch vLen("withmsg", 0, 2) { // the comment is optional (RFC 1459 4.2.8), and may be empty
+			case 1:
+				l += " :out"
+			case 2:
+				l += " :"
+			}
+			lines = append(lines, l)
 		}
 		extra = append(extra, m.NName[i], m.CName[j])
 		vLeave(m, i, j)
 	case 4: // another user quits
 		i := vLen("who", 1, state.VNN-1)
 		vAssume(m.NOn[i])
-		lines = append(lines, vSrc(m, i)+"QUIT :gone")
+		if vLen("withmsg", 0, 1) == 1 {
+			lines = append(lines, vSrc(m, i)+"QUIT :gone")
+		} else {
+			lines = append(lines, vSrc(m, i)+"QUIT")
+		}
 		extra = append(extra, m.NName[i])
 		vForget(m, i)
 	case 5: // nick change of the client or another user
